@@ -174,9 +174,11 @@ def run(ctx):
                 for line in ep:
                     for v in line.split():
                         v = v.replace('@{bin}', '/{,usr/}{,s}bin').replace('@{lib}', '/{,usr/}lib{,exec,32,64}')
+                        if v in ('=', '+='):
+                            continue
                         want.append((v, t))
-            got = [(mm.group(1), mm.group(2)) for mm in re.finditer(r'(?m)^  (\S+) (\w+),$', text) if mm.group(1).startswith('/{') and not mm.group(1).startswith('/etc')]
-            got = [g for g in got if g[0] in [w[0] for w in want] or g[1] == t]
+            src_lines = set(prof.split('\n'))
+            got = [(mm.group(1), mm.group(2)) for mm in re.finditer(r'(?m)^  (\S+) +(\w+),$', text) if mm.group(0) not in src_lines]
             if sorted(got) != sorted(want):
                 ne += 1
                 if ne <= 3:
